@@ -7,7 +7,7 @@
    correspondence of C06 / C12 / C14, repeated here on relabelled networks. *)
 From Coq Require Import String ZArith List Bool Permutation.
 From XV Require Import Base.Label Base.LSet Base.ODict Base.Attr Base.Outcome Model.Hypergraph Model.Stats Model.Hodge
-  Model.Matrix Model.Graph Model.Rename Proofs.HgViews Proofs.RenameProofs.
+  Model.Matrix Model.Graph Model.Rename Proofs.HgViews Proofs.RenameProofs Proofs.RenameMore.
 Import ListNotations.
 Open Scope Z_scope.
 
@@ -51,6 +51,27 @@ Proof.
   - intro o. apply intersection_profile_rename; assumption.
 Qed.
 Print Assumptions C09_matrices_relabel.
+
+Theorem C09_clustering_relabel : forall fn fe s v, Inj fn -> Inj fe ->
+  clustering (rename_hg fn fe s) (fn v) = clustering s v.
+Proof. intros fn fe s v Hn He. apply clustering_rename; assumption. Qed.
+Print Assumptions C09_clustering_relabel.
+
+Theorem C09_maximal_relabel : forall fn fe s strict, Inj fn -> Inj fe ->
+  maximal strict (rename_hg fn fe s) = map fe (maximal strict s).
+Proof. intros fn fe s strict Hn He. apply maximal_rename; assumption. Qed.
+Print Assumptions C09_maximal_relabel.
+
+Theorem C09_projection_relabel : forall fn fe s, Inj fn -> Inj fe ->
+  projection_links (rename_hg fn fe s) = map (fun ab => (fn (fst ab), fn (snd ab))) (projection_links s).
+Proof. intros fn fe s Hn He. apply projection_links_rename; assumption. Qed.
+Print Assumptions C09_projection_relabel.
+
+Theorem C09_line_graph_relabel : forall fn fe s sv, Inj fn ->
+  line_links sv (h_edge (rename_hg fn fe s)) =
+  map (fun t => (fe (fst (fst t)), fe (snd (fst t)), snd t)) (line_links sv (h_edge s)).
+Proof. intros fn fe s sv Hn. apply line_graph_rename; assumption. Qed.
+Print Assumptions C09_line_graph_relabel.
 
 (* insertion order of nodes and of edges *)
 Theorem C09_insertion_order : forall s s',
